@@ -135,6 +135,10 @@ class Check:
                            'num_mode': num_mode, 'obligations': len(res.obligations),
                            'return_paths': res.n_return_paths, 'error_paths': res.n_error_paths,
                            'vcgen_s': round(res.time_s, 3)})
+        if contracts.get(fn, {}).get('opaque_products'):
+            from .opaque import abstract_obligations
+            n_mul = abstract_obligations(res.obligations)
+            self.assumptions.add('%s: nonlinear integer products abstracted by an uninterpreted function with the sign axiom (sound: can only leave obligations open)' % fn)
         split = kw_split(res, contracts.get(fn, {}))
         for o in res.obligations:
             if split:
@@ -158,6 +162,65 @@ class Check:
             self.assumptions.add('%s: machine doubles treated as mathematical reals' % fn)
         return res
 
+    def unit_in_child(self, relpath, fn, contracts, int_mode='bv', num_mode='real', **kw):
+        """same as unit(), but VC generation and discharge run in a forked child concurrently with the caller;
+        the verdicts (plain data) are collected in finish().  For units no later step needs the z3 terms of."""
+        import multiprocessing as mp
+        ctx = mp.get_context('fork')
+        rd, wr = ctx.Pipe(duplex=False)
+
+        def child():
+            out = {'rows': [], 'units': [], 'assumptions': [], 'undecided': [], 'sources': {}, 'layout': []}
+            try:
+                sub = Check(self.pid)
+                sub.timeout = self.timeout
+                sub.unit(relpath, fn, contracts, int_mode, num_mode, **kw)
+                vs = discharge(sub.obs, timeout_s=sub.timeout) if sub.obs else []
+                vs = sub._case_split(vs)
+                for v in vs:
+                    out['rows'].append(dict(name=v.name, kind=v.ob.kind, status=v.status, backend=v.backend, time_s=v.time_s,
+                                            model=v.model, detail=str(v.reason)[:300],
+                                            smt2=(to_smt2(v.ob)[:20000] if v.status != 'unsat' and v.ob.kind != 'cover' else None)))
+                out['units'], out['assumptions'], out['undecided'] = sub.units, sorted(sub.assumptions), sub.undecided
+                out['sources'], out['layout'] = sub.sources, sorted(sub.layout_facts)
+                out['crashed'] = getattr(sub, 'crashed', False)
+            except Exception as e:   # noqa
+                out['undecided'].append('unit %s:%s (child): internal error %r' % (relpath, fn, e))
+                out['crashed'] = True
+            try:
+                wr.send(json.loads(json.dumps(out, default=str)))
+            finally:
+                wr.close()
+                os._exit(0)
+        p = ctx.Process(target=child)
+        p.start()
+        wr.close()
+        self.__dict__.setdefault('_children', []).append((p, rd, '%s:%s' % (relpath, fn)))
+
+    def _collect_children(self):
+        for (p, rd, name) in self.__dict__.get('_children', []):
+            out = None
+            try:
+                if rd.poll(3000):
+                    out = rd.recv()
+            except EOFError:
+                out = None
+            p.join(10)
+            if p.is_alive():
+                p.kill()
+            if out is None:
+                self.undecided.append('unit %s: child process produced no result' % name)
+                self.crashed = True
+                continue
+            self.extra_results.extend(out['rows'])
+            self.units.extend(out['units'])
+            self.assumptions |= set(out['assumptions'])
+            self.undecided.extend(out['undecided'])
+            self.sources.update(out['sources'])
+            if out.get('crashed'):
+                self.crashed = True
+        self._children = []
+
     def add_obligations(self, obs, unitinfo=None):
         self.obs.extend(obs)
         if unitinfo:
@@ -173,6 +236,7 @@ class Check:
         os.makedirs(EVID, exist_ok=True)
         verdicts = discharge(self.obs, timeout_s=self.timeout) if self.obs else []
         verdicts = self._case_split(verdicts)
+        self._collect_children()
         known = []
         if os.path.exists(KNOWN):
             known = [k for k in json.load(open(KNOWN)).get('findings', []) if k.get('property') == pid and k.get('status') == 'known']
@@ -257,6 +321,9 @@ class Check:
             info = {'property': pid, 'obligation': name, 'failing_cases': [m[0] for m in members][:70], 'solver': backend,
                     'solver_model': model, 'detail': reason if isinstance(reason, str) else '', 'tree': self.sources,
                     'native_replay': replayed}
+            ext = [e for e in self.extra_results if e.get('name') == name and e.get('smt2')]
+            if ext:
+                info['smt2'] = ext[0]['smt2']
             if ob is not None:
                 info['smt2'] = to_smt2(ob)[:20000]
                 if ob.meta.get('extra_writes'):
